@@ -65,4 +65,23 @@ Example partial_load :
   match ld w_pre with Val (r, w') => Some (r, locals w' [0; 1; 2], effs w' [0; 1; 2], map m_files (w_models w'), files_ok tiny w') | _ => None end =
   Some (OK 2, [[0; 2]; []; [0; 1]], [Some [0; 2]; Some [0; 2]; Some [0; 1]], [[0; 1; 2]], false).
 Proof. vm_compute. split; reflexivity. Qed.
+
+(* ---------- witness that rule (c) is not kept by a merge, although the root is in all files ---------- *)
+(* one file, package /A = 2 with ELEMENTS = 4 (everything inherits) *)
+Definition pre_c : list op :=
+  [OpNewModel; OpCreateFile 0 (BS "f0") 2; OpCreateSub 0 nPKGS; OpCreateNamed 1 nPKG (BS "A"); OpCreateSub 2 nELEMENTS].
+(* a second file with the package /A without ELEMENTS *)
+Definition tA : Parser.etree :=
+  Parser.ENode 0 (0, 0) []
+    [inl (Parser.ENode 1 (1, 1) []
+       [inl (Parser.ENode 2 (2, 2) [] [inl (Parser.ENode 3 (3, 3) [] [inr (Parser.DString (BS "A"))] None)] None)] None)] None.
+Definition ld_c (w : world) : res (out N * world) := load_parsed tiny 2 99 0 (BS "f1") tA (pstate_of tiny 2 tA) w.
+Definition wc_pre : world := after pre_c.
+Definition wc_post : world := match ld_c wc_pre with Val (_, w') => w' | _ => empty_world end.
+(* ELEMENTS (only in the model) gets the explicit set [0] below AR-PACKAGE, which is not splittable *)
+Example rule_c_load :
+  (locals wc_pre [0; 1; 2; 4], files_ok tiny wc_pre) = ([[0]; []; []; []], true) /\
+  match ld_c wc_pre with Val (r, w') => Some (r, locals w' [0; 1; 2; 4], effs w' [0; 2; 4], map m_files (w_models w'), files_ok tiny w') | _ => None end =
+  Some (OK 1, [[0; 1]; []; []; [0]], [Some [0; 1]; Some [0; 1]; Some [0]], [[0; 1]], false).
+Proof. vm_compute. split; reflexivity. Qed.
 End TinyL.
